@@ -1081,8 +1081,11 @@ class SQLObject(with_metaclass(declarative.DeclarativeMeta, object)):
                 # an attribute may be gone already: a reload that raised
                 # SQLObjectNotFound cleared the flag and loaded nothing
                 self.__dict__.pop(instanceName(column.name), None)
-            self.sqlmeta.expired = True
-            self._connection.cache.expire(self.id, self.__class__)
+            if not self.sqlmeta.expired:
+                # (an instance that is expired already left the cache
+                # then; the row's entry may be another instance's by now)
+                self.sqlmeta.expired = True
+                self._connection.cache.expire(self.id, self.__class__)
             self._SO_createValues = {}
             self.sqlmeta.dirty = False
         finally:
